@@ -279,7 +279,10 @@ func (ch *channel) Free() {
 
 // receive is called by the connection to receive a message.
 func (ch *channel) receive(msg pmpx.Message) status.Status {
-	s := ch.acquire()
+	s, ok := ch.tryAcquire()
+	if !ok {
+		return status.OK // released after the connection looked it up, drop the message
+	}
 	defer ch.release()
 
 	// Ignore messages if closed
@@ -319,6 +322,19 @@ func (ch *channel) acquire() *channelState {
 }
 
 // release decrements the internal refs counter.
+// tryAcquire acquires the channel state unless the last reference has been released.
+func (ch *channel) tryAcquire() (*channelState, bool) {
+	for {
+		refs := ch.refs.Load()
+		if refs <= 0 {
+			return nil, false
+		}
+		if ch.refs.CompareAndSwap(refs, refs+1) {
+			return ch.state.Load(), true
+		}
+	}
+}
+
 func (ch *channel) release() {
 	refs := ch.refs.Add(-1)
 	if refs > 0 {
